@@ -707,6 +707,10 @@ def extract_fn(src, loc, spec, ed):
         for m in ms:
             ed.replace(body_lo + m.start(), body_lo + m.end(), m.expand(repl),
                        rule="%s %s" % (why, name))
+    for (pat, repl, why) in spec.get("body_subst_optional", []):
+        body = src.text[body_lo:body_hi]
+        for m in re.finditer(pat, body):
+            ed.replace(body_lo + m.start(), body_lo + m.end(), m.expand(repl), rule="%s %s" % (why, name))
     return lo_pos, toks[close].end
 
 
